@@ -238,8 +238,32 @@ def rule_m13(repo):
     return res
 
 
+def rule_m14(repo):
+    """The theorems about bit0 / bit1 (bit1_nonzero: ~(bit1 m = 0), ...) speak about bit strings.  The
+    expansions of the constant (in)equality macros instantiate them with the bit string of half the number,
+    `Binary(k)`; `Nat(k)` is the numeral `of_nat <bits>`, equal to the bit string only for 0 and 1 - the expansion
+    then proves ~(of_nat (bit1 2) = 0) where the evaluation reported ~(5 = 0), and the checker rejects the step."""
+    res = RuleResult('C04.M14', 'theorems about bit0 / bit1 are instantiated with bit strings (Binary), not with numerals', floor=3)
+    m = repo.module('data/nat.py')
+    for f in m.all_funcs:
+        for c in ast.walk(f.node):
+            if not (isinstance(c, ast.Call) and call_name(c) in ('apply_theorem', 'logic.apply_theorem') and c.args and isinstance(c.args[0], ast.Constant) and
+                    isinstance(c.args[0].value, str) and c.args[0].value.startswith(('bit0', 'bit1'))):
+                continue
+            for kw in c.keywords:
+                if kw.arg != 'inst' or not (isinstance(kw.value, ast.Call) and call_name(kw.value) == 'Inst'):
+                    continue
+                bad = [k for k in kw.value.keywords if not (isinstance(k.value, ast.Call) and call_name(k.value) == 'Binary')]
+                res.add('data/nat.py :: %s :: %s(%s)' % (f.qualname, c.args[0].value, ','.join(k.arg for k in kw.value.keywords)), not bad,
+                        'bit strings' if not bad else
+                        'line %d instantiates %s with `%s`: a numeral (of_nat ..) under bit1 is not the number the evaluation reports, the expansion '
+                        'proves another statement and the step is rejected (~(5 = 0) fails for every number whose odd part is at least 5)' % (
+                            c.lineno, bad[0].arg, src(bad[0].value, 30)), 'data/nat.py:%d' % c.lineno)
+    return res
+
+
 def rules(repo):
     m1 = mr.hyps_rule(repo, 'C04.M1', mr.all_macros, floor=95)
     m2 = mr.zip_rule(repo, 'C04.M2', mr.macro_eval_functions(repo), floor=4)
     return [m1, m2, rule_m3(repo), rule_m5(repo), rule_m6(repo), rule_m7(repo), rule_m8(repo), rule_m9(repo), rule_m10(repo), mr.expansion_uses_rule(repo, 'C04.M11', mr.all_macros, floor=25),
-            mr.argument_dependence_rule(repo, 'C04.M12', mr.all_macros, floor=30), rule_m13(repo)]
+            mr.argument_dependence_rule(repo, 'C04.M12', mr.all_macros, floor=30), rule_m13(repo), rule_m14(repo)]
